@@ -245,6 +245,9 @@ func props() []engine.AnyProp {
 	for _, st := range sreg.Base() {
 		ps = append(ps, baseStratProp(st))
 	}
+	for _, st := range sreg.Extra() {
+		ps = append(ps, baseStratProp(st))
+	}
 	return append(ps, treeProp())
 }
 
